@@ -244,6 +244,20 @@ def grammar_view(d):
 
 def do_op(d, op, inputs):
     kind, k = op
+    if kind == "make_optional":
+        # grammar edit: the k-th required input that has a default value becomes optional
+        g = d.io.input_grammar
+        names = sorted(n for n in g.required_names if n in g.defaults)
+        if names:
+            g.required_names.remove(names[k % len(names)])
+        return ("edit", {})
+    if kind == "set_default":
+        g = d.io.input_grammar
+        names = sorted(n for n, v in g.defaults.items() if isinstance(v, np.ndarray) and v.size)
+        if names:
+            n = names[k % len(names)]
+            g.defaults[n] = np.array(g.defaults[n], dtype=float, copy=True) + 0.25
+        return ("edit", {})
     inp = {n: np.array(v, copy=True) for n, v in inputs[k].items()}
     if kind == "exec":
         return ("data", snap(d.execute(inp)))
@@ -270,7 +284,7 @@ def run_discipline_like(ctx, d, inputs, label, iterative, cache):
     t = ctx.tape
     rtol = 1e-6 if iterative else 0.0
     n_pre = t.randint(0, 4, "n_prefix")
-    prefix = [(t.pick(["exec", "lin"], f"pre_kind[{i}]"), t.choice(len(inputs), f"pre_in[{i}]")) for i in range(n_pre)]
+    prefix = [(t.pick(["exec", "lin", "exec", "lin", "make_optional", "set_default"], f"pre_kind[{i}]"), t.choice(len(inputs), f"pre_in[{i}]")) for i in range(n_pre)]
     transport = t.weighted([4, 2, 3], "transport")
     n_suf = t.randint(1, 3, "n_suffix")
     suffix = [(t.pick(["exec", "lin"], f"suf_kind[{i}]"), t.choice(len(inputs), f"suf_in[{i}]")) for i in range(n_suf)]
@@ -282,7 +296,7 @@ def run_discipline_like(ctx, d, inputs, label, iterative, cache):
             do_op(d, op, inputs)
     except NotImplementedError:
         # a discipline without analytic Jacobian: restrict the run to executions
-        prefix = [("exec", k) for _, k in prefix]
+        prefix = [(kd if kd in ("make_optional", "set_default") else "exec", k) for kd, k in prefix]
         suffix = [("exec", k) for _, k in suffix]
     g0 = grammar_view(d)
     n_exec0 = d.execution_statistics.n_executions
@@ -334,12 +348,16 @@ def run_discipline_like(ctx, d, inputs, label, iterative, cache):
                                     f"{label}: after the other object stored a new entry in the shared file, the {side} discipline raised {exc!r} for {op} (its hash index is not re-read); prefix={prefix} suffix={suffix}")
                     raise
     if g1 != g0:
-        ctx.violate("C20.same_grammars", sig, f"grammars/defaults differ after restoring: {g0} vs {g1}")
+        gsig = label.split("/")[0] + ("/" + label.split("/")[1] if "/" in label else "")
+        ctx.violate("C20.same_grammars", gsig + (" after-grammar-edit" if any(kd in ("make_optional", "set_default") for kd, _ in prefix) else ""),
+                    f"grammars/defaults differ after restoring {label} (prefix {prefix}, via {tname}): {g0} vs {g1}")
     for op, (ke, ve), (kg, vg) in zip(suffix, exp, got):
+        if ke == "edit":
+            continue
         diff = same_data(ve, vg, rtol) if ke == "data" else same_jac(ve, vg, rtol)
         if diff:
             ctx.violate("C20.behaves_like_original", sig + f" {op[0]}", f"{op} after prefix {prefix} via {tname}: original and restored differ: {diff}")
-    ctx.event("suffix", canon([(k, v if k == "data" else {o: dict(jo) for o, jo in v.items()}) for k, v in got]))
+    ctx.event("suffix", canon([(k, v if k != "jac" else {o: dict(jo) for o, jo in v.items()}) for k, v in got]))
     # isolation
     if c is not None:
         n_o = d.execution_statistics.n_executions
